@@ -353,7 +353,10 @@ struct World : CallbackSink
 
 	// ---------- operations
 	void doAdd(OpKind k, int li) {
-		const int cbid = nextCb++;
+		int cbid = nextCb++;
+		// configurations with a comparable Callback: now and then add a callback EQUAL to one already in the list
+		// (the eventutil helpers speak of "the first equal callback")
+		if(Cfg::hasEq && ! lists[li].order.empty() && rng.chance(1, 6)) { cbid = nodes[pickLive(li)].cbid; count("duplicate_callbacks_added"); }
 		TCallback cb(cbid);
 		int before = -1;
 		if(k == OP_INSERT) before = pickHandle(li, false);
@@ -537,18 +540,21 @@ struct World : CallbackSink
 		if(f.wrapped) {
 			// C19 relaxation: callbacks added during this (in-progress at the wrap) invocation may be called, at most once
 			const std::vector<int> & o = lists[f.li].order;
+			bool anyCandidate = false;
 			for(size_t i = 0; i < o.size(); ++i) {
 				const int uid = o[i];
 				if(nodes[uid].cbid == cbid && nodes[uid].born > f.startTick) {
-					if(std::find(f.extraCalled.begin(), f.extraCalled.end(), uid) != f.extraCalled.end()) {
-						fail(std::string(what) + ":wrap-extra-called-twice", "cb" + num(cbid) + " called twice by an invocation in progress at the wrap");
-						return -1;
-					}
+					anyCandidate = true;
+					if(std::find(f.extraCalled.begin(), f.extraCalled.end(), uid) != f.extraCalled.end()) continue; // an equal callback (same id) may be in the list more than once
 					f.extraCalled.push_back(uid);
 					f.curUid = uid;
 					count("wrap.extra_calls_allowed");
 					return uid;
 				}
+			}
+			if(anyCandidate) {
+				fail(std::string(what) + ":wrap-extra-called-twice", "cb" + num(cbid) + " called more often than it is in the list by an invocation in progress at the wrap");
+				return -1;
 			}
 		}
 		fail(std::string(what) + ":" + classify(f, cbid) + (f.wrapped ? ":in-progress-at-wrap" : ""), "cb" + num(cbid) + " called; model expected "
@@ -593,7 +599,7 @@ struct World : CallbackSink
 		if(uid < 0) return true;
 		log(std::string("visit u") + num(uid) + " cb" + num(cbid));
 		count("enum_visits");
-		if(h) {
+		if(h && ! frames.back().wrapped) { // in a relaxed (in-progress-at-wrap) frame equal callbacks cannot be told apart by id
 			auto a = h->lock();
 			auto b = rh[uid].lock();
 			if(! a || a != b) { fail(std::string(fn) + ":handle", "enumeration passed a handle that is not the handle of the visited callback"); return true; }
@@ -859,12 +865,14 @@ typedef CLCfg<ProtoInt, PolCustomCbMulti, true> Cfg4;
 typedef EDCfg<eventpp::DefaultPolicies, false> Cfg5;
 typedef EDCfg<PolUserMap, true> Cfg6;
 typedef EDCfg<PolSingleOrdered, false> Cfg7;
-enum { NCFG = 8 };
+struct PolSpinED { typedef eventpp::GeneralThreading<eventpp::SpinLock> Threading; };
+typedef EDCfg<PolSpinED, false> Cfg8;
+enum { NCFG = 9 };
 
 // C20: the SAME generated program under every member of a family that differs only in policies (threading, callback
 // storage); the observable trace (operations, results, calls with arguments) must be identical
 #ifndef VF_CFG_MASK
-#define VF_CFG_MASK 0xff
+#define VF_CFG_MASK 0x2ff
 #endif
 #if (VF_CFG_MASK >> 8) & 1
 struct PolCustomCbSpin { typedef TCallback Callback; typedef eventpp::GeneralThreading<eventpp::SpinLock> Threading; };
@@ -904,6 +912,7 @@ static void runCase(uint64_t caseNo, Rng & rng)
 #define VF_CFG(n) case n: if((VF_CFG_MASK >> n) & 1) { runCfgIf<((VF_CFG_MASK >> n) & 1) != 0, Cfg##n>(mode, rng, caseNo, n); } else { skipCase(); } break;
 	switch(cfg) {
 	VF_CFG(0) VF_CFG(1) VF_CFG(2) VF_CFG(3) VF_CFG(4) VF_CFG(5) VF_CFG(6) VF_CFG(7)
+	case 8: if((VF_CFG_MASK >> 9) & 1) { runCfgIf<((VF_CFG_MASK >> 9) & 1) != 0, Cfg8>(mode, rng, caseNo, 8); } else { skipCase(); } break; // bit 8 is the C20 family
 	default: skipCase(); break;
 	}
 }
